@@ -368,6 +368,10 @@ def preorder(nodes):
 
 
 def run_case(spec, ctx):
+    if "query" in spec and "queries" not in spec:
+        # a replay file holds (tree, query) - with shared predicate objects also the queries that were built before it
+        spec = {"tree": spec["tree"], "queries": list(spec.get("queries_before") or []) + [spec["query"]], "from_dict": spec.get("from_dict", False),
+                "share_predicates": spec.get("share_predicates", False)}
     from insights.core import ConfigComponent
     from insights.parsr import query as Q
     from insights.parsr.query import Entry, Result
@@ -464,7 +468,8 @@ def run_case(spec, ctx):
             ctx.count("queries_with_matches")
         nt = len(allnodes) >= 4 and 0 < len(cur) < max(1, cands)
         any_nt = any_nt or nt
-        case = {"tree": spec["tree"], "query": q}
+        case = {"tree": spec["tree"], "query": q, "from_dict": spec.get("from_dict", False), "share_predicates": spec.get("share_predicates", False),
+                "queries_before": spec["queries"][:spec["queries"].index(q)] if spec.get("share_predicates") else []}
         ctx.note_case(case, nt)
         gi, ei = [id(x) for x in got], [id(x) for x in exp]
         if gi != ei:
